@@ -89,6 +89,12 @@ func genBuffer(rng *mrand.Rand, n int, tier string, w *bufio.Writer) {
 		default:
 			evs = append(evs, "ct."+hexB([]byte(pick(rng, []string{"text/html", "application/json", ""}))))
 		}
+		headLike := false
+		if chance(rng, 25) {
+			// the handler announces a length: the answer to a HEAD request (no body follows) or a sized body
+			headLike = chance(rng, 50)
+			evs = append(evs, "cl."+strconv.Itoa(pick(rng, []int{0, 5, 1024, 70000})))
+		}
 		for chance(rng, 20) {
 			evs = append(evs, "wh."+strconv.Itoa(pick(rng, []int{100, 102, 103, 199})))
 		}
@@ -103,6 +109,9 @@ func genBuffer(rng *mrand.Rand, n int, tier string, w *bufio.Writer) {
 			evs = append(evs, "wh.200") // second header: ignored
 		}
 		for i, s := range sizes() {
+			if headLike {
+				break
+			}
 			evs = append(evs, "w."+hexB([]byte(bufChunk(i, s))))
 			if chance(rng, 20) {
 				evs = append(evs, "f")
@@ -285,6 +294,8 @@ func runRespMw(mm, mb int64, events string) string {
 			switch kind {
 			case "ct":
 				w.Header().Set("Content-Type", string(unhexB(arg)))
+			case "cl":
+				w.Header().Set("Content-Length", arg)
 			case "wh":
 				c, _ := strconv.Atoi(arg)
 				w.WriteHeader(c)
@@ -318,5 +329,14 @@ func runRespMw(mm, mb int64, events string) string {
 	if len(rec.out) > 0 {
 		out = strings.Join(rec.out, ",")
 	}
-	return fmt.Sprintf("respmw out=%s panicked=%s leftover=%d", out, b2s(panicked), leftoverSpills())
+	res := fmt.Sprintf("respmw out=%s panicked=%s leftover=%d", out, b2s(panicked), leftoverSpills())
+	if strings.Contains(events, "cl.") {
+		// the Content-Length the handler announced (a HEAD answer, a known-size body) must reach the client as set
+		cl := rec.hdr.Get("Content-Length")
+		if cl == "" {
+			cl = "-"
+		}
+		res += " cl=" + cl
+	}
+	return res
 }
